@@ -133,6 +133,19 @@ Restore(s) ==
   /\ evald' = {} /\ raised' = FALSE
   /\ UNCHANGED <<gvars, auto, slots>>
 
+\* pop_nodes_and_vars, a value assigned to value node n while it belongs to no model, and a new model built from
+\* the same objects: Model.__init__ evaluates every node, nothing is outdated afterwards, auto-update is on again
+\* (o: the sweep order of the new model)
+Rebuild(n, x, o) ==
+  /\ kind[n] = "v"
+  /\ LET v1 == [val EXCEPT ![n] = x]
+         fr == Fresh(v1)
+     IN /\ \A m \in Node : fr[m] # ErrVal
+        /\ val' = [m \in Node |-> IF Transient(m) THEN val[m] ELSE fr[m]]
+  /\ flag' = [m \in Node |-> FALSE] /\ dirty' = [m \in Node |-> FALSE]
+  /\ evald' = {m \in Node : kind[m] = "c"} /\ raised' = FALSE /\ auto' = TRUE
+  /\ ord' = o /\ UNCHANGED <<N, kind, inp, slots>>
+
 -----------------------------------------------------------------------------
 (* Model.simulate (C17).  simd = sequence of records [d, target, params, r]: *)
 (* distribution node d (in the order they are sampled), the value node its   *)
